@@ -527,6 +527,91 @@ func TestVerifC10(t *testing.T) {
 		"non-trivial = budget with >=1 metric; policy with 0<k<=n; cpuset with >=1 eligible CPU and a write; quota that is written (not bypassed); distinct by op line")
 }
 
+// TestVerifC10Exhaustive (thorough tier): calculateBESuppressCPUSetPolicy on EVERY topology with at most
+// 2 sockets x 2 NUMA nodes per socket x 2 cores x 2 threads (both cpu-id layouts, global and per-socket core ids),
+// every sub-list of it when it has <= 8 CPUs (all 2^n pools), every sub-list missing <= 3 CPUs when it has 16,
+// and every k in [-1, n+1].  One case = one processor list, one op per k.
+func TestVerifC10Exhaustive(t *testing.T) {
+	h := vOpen("C10")
+	if h == nil {
+		t.Skip("VERIF_OUT not set")
+	}
+	klog.LogToStderr(false)
+	klog.SetOutput(io.Discard)
+	idx, ops := 0, 0
+	emit := func(ps []koordletutil.ProcessorInfo) {
+		r := h.Begin(idx)
+		idx++
+		if r == nil {
+			return
+		}
+		for k := -1; k <= len(ps)+1; k++ {
+			c10PolicyOne(h, k, ps)
+			ops++
+		}
+		if len(ps) > 0 {
+			h.Nontrivial()
+		}
+		h.End()
+	}
+	for sockets := 1; sockets <= 2; sockets++ {
+		for nodesPer := 1; nodesPer <= 2; nodesPer++ {
+			for cores := 1; cores <= 2; cores++ {
+				for threads := 1; threads <= 2; threads++ {
+					for layout := 0; layout < 4; layout++ {
+						siblingStyle, coreRestart := layout&1 == 0, layout&2 != 0
+						total := sockets * nodesPer * cores * threads
+						nCores := total / threads
+						var ps []koordletutil.ProcessorInfo
+						coreGlobal := 0
+						for s := 0; s < sockets; s++ {
+							for nd := 0; nd < nodesPer; nd++ {
+								for c := 0; c < cores; c++ {
+									coreID := coreGlobal
+									if coreRestart {
+										coreID = nd*cores + c
+									}
+									for th := 0; th < threads; th++ {
+										cpu := coreGlobal*threads + th
+										if !siblingStyle {
+											cpu = th*nCores + coreGlobal
+										}
+										ps = append(ps, koordletutil.ProcessorInfo{CPUID: int32(cpu), CoreID: int32(coreID),
+											SocketID: int32(s), NodeID: int32(s*nodesPer + nd)})
+									}
+									coreGlobal++
+								}
+							}
+						}
+						sort.Slice(ps, func(i, j int) bool { return ps[i].CPUID < ps[j].CPUID })
+						for mask := 0; mask < 1<<uint(total); mask++ {
+							missing := 0
+							for b := 0; b < total; b++ {
+								if mask&(1<<uint(b)) == 0 {
+									missing++
+								}
+							}
+							if total > 8 && missing > 3 {
+								continue
+							}
+							var q []koordletutil.ProcessorInfo
+							for b := 0; b < total; b++ {
+								if mask&(1<<uint(b)) != 0 {
+									q = append(q, ps[b])
+								}
+							}
+							emit(q)
+						}
+					}
+				}
+			}
+		}
+	}
+	h.Extra("exhaustive", fmt.Sprintf("calculateBESuppressCPUSetPolicy: all topologies <= 2 sockets x 2 numa x 2 cores x 2 threads x 4 id layouts, "+
+		"all sub-lists (n <= 8) / all sub-lists missing <= 3 cpus (n = 16), all k in [-1, n+1]: %d processor lists, %d calls", idx, ops))
+	h.Close("exhaustive small scope for the selection: every topology <= 2x2x2x2 (4 id layouts), every pool that is a sub-list (all for n<=8, missing<=3 for n=16), every k in [-1,n+1]; non-trivial = non-empty pool")
+}
+
 func c10CaseBudget(h *vHarness, r *vRand, j int) {
 	in := c10GenBudget(r, j)
 	got1, ok := c10RunBudget(h, in)
@@ -596,6 +681,11 @@ func c10CasePolicy(h *vHarness, r *vRand) {
 	if r.Chance(1, 2) && len(ps) > 0 {
 		k = r.Range(1, len(ps))
 	}
+	c10PolicyOne(h, k, ps)
+}
+
+// c10PolicyOne: one call of calculateBESuppressCPUSetPolicy(k, ps) with op, observation and oracle.
+func c10PolicyOne(h *vHarness, k int, ps []koordletutil.ProcessorInfo) {
 	h.Op("policy %d %s", k, c10ProcTokens(ps))
 	h.Tag("kind:policy")
 	h.Tag(fmt.Sprintf("policy:n<=%d", (len(ps)+7)/8*8))
